@@ -104,6 +104,8 @@ def g_task(spec, o, tag):
         call = "FCJoin" if j["api"] == "join" else "(FCTimeout %s)" % gz(DUR[j["dur"]])
         if k < len(ojs):
             jo = ojs[k]
+            if jo.get("r") == "skipped":
+                continue
             t_call, t_ret = int(jo["t_call"]), int(jo["t_ret"])
             fb, fa = int(jo["fin_before"]), int(jo["fin_after"])
             dl = U64MAX if j["api"] == "join" else min(t_call + DUR[j["dur"]], U64MAX)
@@ -126,6 +128,16 @@ def g_task(spec, o, tag):
             js.append("{| fj_call := {| fc_call := %s; fc_now := 0; fc_fin := None |}; fj_ambiguous := false; fj_lag_ms := 0; fj_impl := %s |}"
                       % (call, g_fres(tag) if k == len(ojs) else "FAbort"))
     return "{| ft_out := %s; ft_joins := %s |}" % (g_uout(spec["out"]), glist(js))
+
+
+def sleeps_overlap(d):
+    """N waits on ONE event loop overlap iff first start .. last end is clearly shorter than the sum
+    of the times the tasks spent in their waits (serialised waits: equal or longer)"""
+    sl = d.get("sleepers", [])
+    if len(sl) < 2 or any(int(o["started"]) == 0 or int(o["fin"]) == 0 for o in sl):
+        return len(sl) < 2
+    span = max(int(o["fin"]) for o in sl) - min(int(o["started"]) for o in sl)
+    return span < 0.8 * sum(int(o["slept_ns"]) for o in sl)
 
 
 def g_checks(chk):
@@ -181,11 +193,9 @@ def term(case, obs):
                       % (g_uout(spec["out"]), gz(0), "(Some 0)" if fin else "None", g_fres(o["r"])))
             if int(o["slept_ns"]) < want[i] * 10**6:
                 slept_ok = False
-        span_ms = (int(d["t_end"]) - int(d["t_begin"])) // 10**6
         chk.append(("slept_at_least_requested", slept_ok))
-        # N waits on ONE event loop: they overlap iff the whole took clearly less than their sum
         if not case.get("std_probe"):
-            chk.append(("sleeps_overlap", len(want) < 2 or span_ms < max(want) + 0.5 * (sum(want) - max(want))))
+            chk.append(("sleeps_overlap", sleeps_overlap(d)))
         return "(of_facade (FJoins %s %s))" % (glist(ts), g_checks(chk))
     if kind == "any":
         pre = next((d["pre"] for d in dicts if "pre" in d), None)
@@ -271,9 +281,14 @@ def _joins_for(rng, late):
 
 def joins_case(rng):
     tasks = []
+    spawn_all = rng.random() < 0.4
     for _ in range(rng.randint(3, 5)):
         late = rng.random() < 0.35
         t = {"out": _out(rng), "joins": _joins_for(rng, late)}
+        if late and spawn_all:
+            # submitted long before it is asked: it may have finished by then, and an unlimited wait
+            # after the outcome has been handed out would (rightly) never return
+            t["joins"] = t["joins"][-1:]
         if late:
             t["pre"] = {"how": rng.choice(["usleep", "nanosleep", "stdsleep"]), "ms": 400}
         else:
@@ -281,7 +296,7 @@ def joins_case(rng):
         if rng.random() < 0.2:
             t["prio"] = rng.choice([-5, 0, 3])
         tasks.append(t)
-    return {"kind": "joins", "tasks": tasks, "spawn_all": rng.random() < 0.4}
+    return {"kind": "joins", "tasks": tasks, "spawn_all": spawn_all}
 
 
 def matrix_cases():
